@@ -27,6 +27,10 @@ SUPPORTED = ['en-us', 'en-*', 'nl-nl', 'zh-cn', 'fr-fr', 'it-it', 'ja-jp', 'ko-k
 VARIANTS = ['en-gb', 'en-au', 'en', 'fr-ca', 'fr', 'de-ch', 'de-at', 'pt-pt', 'zh-tw', 'zh-hk', 'es-ar', 'es', 'nl-be', 'it-ch', 'ja',
             'ko', 'tr', 'xx-yy', 'xx', 'e', '-', 'english']
 SPECIAL = ['', None, ' en-us', 'en_us']
+# unknown language tags that merely *begin* with the letters of a supported language (three-letter subtags, no hyphen)
+for _c in ('en-us', 'fr-fr', 'de-de', 'es-es', 'pt-br', 'it-it', 'nl-nl', 'zh-cn', 'ja-jp', 'ko-kr', 'tr-tr'):
+    _l, _r = _c.split('-')
+    VARIANTS += [_l + 'x-' + _r, _l + 'xx', _l + _r]
 
 
 def casings(c):
